@@ -751,8 +751,12 @@ def effects_run(fns, table, comb):
     try:
         toml = open(os.path.join(REPO, 'sv-parser-parser', 'Cargo.toml'), encoding='utf-8').read()
         m_ = re.search(r'^nom-recursive\s*=\s*(.*)$', toml, re.M)
-        if m_:
-            cap = 256 if 'tracer256' in m_.group(1) else 128 if 'tracer128' in m_.group(1) else 64
+        spec_ = m_.group(1) if m_ else None
+        if spec_ is None:
+            m_ = re.search(r'^\[dependencies\.nom-recursive\]\s*\n((?:(?!\[)[^\n]*\n?)*)', toml, re.M)      # table form
+            spec_ = m_.group(1) if m_ else None
+        if spec_ is not None:
+            cap = 256 if 'tracer256' in spec_ else 128 if 'tracer128' in spec_ else 64
     except IOError:
         pass
     if cap is None:
@@ -1276,6 +1280,15 @@ def kwsites_check(fns):
     if bk is None:
         return dict(failures=[], undecided=['begin_keywords not found (anchor lost)'], checked=0)
     known = set(re.findall(r'"([^"]*)"\s*=>', bk.body_src))
+    if not known:
+        # the names may sit in a const table the body looks the argument up in: ("name", Version::X) pairs
+        try:
+            raw_u = open(os.path.join(REPO, bk.file), encoding='utf-8').read()
+        except IOError:
+            raw_u = ''
+        for cm in re.finditer(r'\b(?:const|static)\s+([A-Z_][A-Z0-9_]*)\s*:[^=]*=\s*&?\[(.*?)\];', raw_u, re.S):
+            if re.search(r'\b%s\b' % cm.group(1), bk.body_src):
+                known |= set(re.findall(r'\(\s*"([^"]*)"\s*,\s*Version::\w+\s*\)', cm.group(2)))
     if not known:
         return dict(failures=[], undecided=['begin_keywords: the names it accepts could not be read off its match arms'], checked=0)
     for f in fns:
